@@ -17,6 +17,9 @@ def run(report, p):
     pr = prov(p)
     cmds = commands(p)
     report.assume("pairwise distinct file contents among the renamed files (the property's premise)")
+    from .common import include_rules as _inc17
+
+    _inc17(report, p, 'c03', ['R3.1'], 'after create -dr accepted a tree, verify / diff / create must expect each renamed file under its NEW name: the expected set of all three is the recorded paths of the whole history rewritten through the history-wide rename map')
 
     # ------------------------------------------------------------------ R17.1
     r1 = report.rule("R17.1", "persistence: a set previous path is written as <previousPath> (POSIX), parsed back into previous_path, and the record is indexed under both its path and its previous path", 3)
